@@ -396,6 +396,8 @@ def gen_text(rng, dfa, maxtok, short):
             parts.append(rng.choice(["?", "@", "é", "€", "x9", "=", "a", "ab", "abab", "~",
                                      # the first and last code point of every UTF-8 length, the neighbours of the surrogates, U+FFFD (what
                                      # decoders return for garbage - here a character like any other)
+                                     # characters Unicode calls white space that the documentation does not list as discarded
+                                     "\x0b", "\x0c", "\u0085", "\u00a0", "\u1680", "\u2003", "\u2028", "\u2029", "\u202f", "\u205f", "\u3000", "\ufeff", "\x1f", "\x1c",
                                      "\x7f", "\u0080", "\u07ff", "\u0800", "\ud7ff", "\ue000", "\ufffd", "\ufffc", "\uffff", "\U00010000", "\U0010ffff"]))      # near-misses / strays
         parts.append(rng.choice([" ", " ", "\n", "\t", "", "  ", "\r\n", " \n "]))
     t = "".join(parts)
